@@ -1,5 +1,6 @@
 import FgaVerif.Proofs.Listener
 import FgaVerif.Proofs.ErrLog
+import FgaVerif.Proofs.ListenerErrors
 import FgaVerif.Proofs.AList
 import FgaVerif.Proofs.ParserImage
 import FgaVerif.Model.CstParse
@@ -140,5 +141,326 @@ theorem accepted_declaration_structurally_valid (t : Tree) (d : Decl) (h : embed
 
 /-- a restriction list of a CST is never empty -/
 theorem direct_assignment_nonempty (d : Direct) : d.den ≠ [] := by simp [Direct.den]
+
+/-! ## the listener half, continued: the other errors the listener raises
+
+    A condition defined twice, a condition parameter defined twice, `extend` outside a module, the same
+    type extended twice in one file (`Proofs/ListenerErrors.lean`).  Each statement is about a rule node
+    **whose children are arbitrary** (or arbitrary up to the exclusion of a nested node of the very kind
+    under consideration — something no grammatical and no error-recovered tree of this grammar has), in
+    an arbitrary listener state meeting the stated condition, and comes in three strengths:
+
+    * `…_logged`: every successful walk of the node appends the error, with the position of the
+      offending name, to the log;
+    * `…_rejected_anywhere`: whatever follows the node among its siblings, the error is in the log —
+      which is therefore not empty — at the end;
+    * `…_voids_transform`: wherever in the document's tree the node sits — any sibling rank, any nesting
+      depth (`Reaches`: the path from the root, with the callbacks run on the way) — `transform`
+      returns no model.
+
+    `Reaches pe ts st pe' t s` reads: the walk of the forest `ts` from state `st` arrives at the node
+    `t` (a member of `ts`, or a descendant at any depth) and walks it from state `s`; it is generated by
+    `here` (the head of the forest), `skip` (walk the head, go on in the tail) and `down` (run the head's
+    enter callback, go on among its children). -/
+
+/-- **any error, anywhere**: if the walk of the document's tree reaches, at whatever position and
+    depth, a node whose walk cannot end with an empty log, the transform returns no model -/
+theorem listener_error_voids_transform (antlrErrors : List SynErr) (T : Tree) (pe' : Option Bool) (t : Tree)
+    (s : LState) (hr : Reaches none [T] { errors := antlrErrors } pe' t s)
+    (hne : ∀ mid, walk pe' t s = .ok mid → mid.errors ≠ []) (m : Model) (x) :
+    transform antlrErrors T ≠ .ok m x :=
+  Listener.listener_error_voids_transform antlrErrors T pe' t s hr hne m x
+
+/-- the position `Reaches` describes is really visited: if the whole walk succeeds, so does the walk of
+    the node reached, from the state given, and whatever it logs is still in the log at the end -/
+theorem reached_node_is_walked (pe : Option Bool) (ts : List Tree) (st : LState) (pe' : Option Bool) (t : Tree)
+    (s final : LState) (hr : Reaches pe ts st pe' t s) (h : walkL pe ts st = .ok final) :
+    ∃ mid, walk pe' t s = .ok mid ∧ ∃ l, final.errors = mid.errors ++ l :=
+  (hr.grows final h).2
+
+/-! ### a condition defined twice -/
+
+/-- a `condition` node (any children) whose name is already among the conditions collected: every
+    successful walk logs the error at the position of the name -/
+theorem duplicate_condition_logged (pe : Option Bool) (sl sc : Nat) (ls) (cs : List Tree) (cn : Tree) (st st' : LState)
+    (hcn : (Tree.rule "condition" sl sc ls cs).childRule? "conditionName" = some cn)
+    (hdup : AList.contains cn.text st.conds = true)
+    (h : walk pe (.rule "condition" sl sc ls cs) st = .ok st') :
+    ∃ l, st'.errors = st.errors ++
+      (⟨cn.startPos.1, cn.startPos.2, s!"condition '{cn.text}' is already defined in the model"⟩ :: l) :=
+  Listener.duplicate_condition_logged pe sl sc ls cs cn st st' hcn hdup h
+
+/-- … and no continuation of the walk can end with an empty log -/
+theorem duplicate_condition_rejected_anywhere (pe' : Option Bool) (sl sc : Nat) (ls) (cs : List Tree) (cn : Tree)
+    (st : LState) (hcn : (Tree.rule "condition" sl sc ls cs).childRule? "conditionName" = some cn)
+    (hdup : AList.contains cn.text st.conds = true) (rest : List Tree) (final : LState)
+    (h : walkL pe' (.rule "condition" sl sc ls cs :: rest) st = .ok final) : final.errors ≠ [] :=
+  (Listener.duplicate_condition_rejected_anywhere pe' sl sc ls cs cn st hcn hdup rest final h).2
+
+/-- … at whatever position and depth of the document -/
+theorem duplicate_condition_voids_transform (antlrErrors : List SynErr) (T : Tree) (pe' : Option Bool)
+    (sl sc : Nat) (ls) (cs : List Tree) (cn : Tree) (s : LState)
+    (hr : Reaches none [T] { errors := antlrErrors } pe' (.rule "condition" sl sc ls cs) s)
+    (hcn : (Tree.rule "condition" sl sc ls cs).childRule? "conditionName" = some cn)
+    (hdup : AList.contains cn.text s.conds = true) (m : Model) (x) :
+    transform antlrErrors T ≠ .ok m x :=
+  Listener.duplicate_condition_voids_transform antlrErrors T pe' sl sc ls cs cn s hr hcn hdup m x
+
+/-! ### a condition parameter defined twice -/
+
+/-- callback level, for every context node and state: a parameter whose name the condition under
+    construction already has is logged at the position of the name -/
+theorem duplicate_parameter_logged_by_callback (ctx pn pt : Tree) (st : LState) (c : Condition)
+    (hpn : ctx.childRule? "parameterName" = some pn) (hpt : ctx.childRule? "parameterType" = some pt)
+    (hc : st.currentCondition = some c) (hdup : AList.contains pn.text c.params = true) :
+    ∃ st', exitConditionParameter ctx st = .ok st' ∧
+      st'.errors = st.errors ++
+        [⟨pn.startPos.1, pn.startPos.2, s!"parameter '{pn.text}' is already defined in the condition '{c.name}'"⟩] :=
+  exitConditionParameter_duplicate ctx pn pt st c hpn hpt hc hdup
+
+/-- whole `conditionParameter` node whose children are subtrees the listener has no callback for (tokens,
+    error nodes, `parameterName` / `parameterType` nodes over such — `inertL`; walking them leaves the state
+    as it is, `walkL_inert`): the walk succeeds and logs exactly this error -/
+theorem duplicate_parameter_logged (pe : Option Bool) (sl sc : Nat) (ls) (cs : List Tree) (pn pt : Tree)
+    (st : LState) (c : Condition) (hin : inertL cs = true)
+    (hpn : (Tree.rule "conditionParameter" sl sc ls cs).childRule? "parameterName" = some pn)
+    (hpt : (Tree.rule "conditionParameter" sl sc ls cs).childRule? "parameterType" = some pt)
+    (hc : st.currentCondition = some c) (hdup : AList.contains pn.text c.params = true) :
+    ∃ st', walk pe (.rule "conditionParameter" sl sc ls cs) st = .ok st' ∧
+      st'.errors = st.errors ++
+        [⟨pn.startPos.1, pn.startPos.2, s!"parameter '{pn.text}' is already defined in the condition '{c.name}'"⟩] :=
+  Listener.duplicate_parameter_logged pe sl sc ls cs pn pt st c hin hpn hpt hc hdup
+
+/-- whole node, children of any shape provided no `condition` / `conditionParameter` node is nested in
+    them (only those touch the name and the parameters of the condition under construction,
+    `keeps_cond`): every successful walk ends with the error as the last entry of the log -/
+theorem duplicate_parameter_logged_general (pe : Option Bool) (sl sc : Nat) (ls) (cs : List Tree) (pn pt : Tree)
+    (st st' : LState) (c : Condition) (hav : avoidsL condBad cs = true)
+    (hpn : (Tree.rule "conditionParameter" sl sc ls cs).childRule? "parameterName" = some pn)
+    (hpt : (Tree.rule "conditionParameter" sl sc ls cs).childRule? "parameterType" = some pt)
+    (hc : st.currentCondition = some c) (hdup : AList.contains pn.text c.params = true)
+    (h : walk pe (.rule "conditionParameter" sl sc ls cs) st = .ok st') :
+    ∃ l, st'.errors = st.errors ++ l ++
+      [⟨pn.startPos.1, pn.startPos.2, s!"parameter '{pn.text}' is already defined in the condition '{c.name}'"⟩] :=
+  Listener.duplicate_parameter_logged_general pe sl sc ls cs pn pt st st' c hav hpn hpt hc hdup h
+
+theorem duplicate_parameter_rejected_anywhere (pe' : Option Bool) (sl sc : Nat) (ls) (cs : List Tree) (pn pt : Tree)
+    (st : LState) (c : Condition) (hav : avoidsL condBad cs = true)
+    (hpn : (Tree.rule "conditionParameter" sl sc ls cs).childRule? "parameterName" = some pn)
+    (hpt : (Tree.rule "conditionParameter" sl sc ls cs).childRule? "parameterType" = some pt)
+    (hc : st.currentCondition = some c) (hdup : AList.contains pn.text c.params = true)
+    (rest : List Tree) (final : LState)
+    (h : walkL pe' (.rule "conditionParameter" sl sc ls cs :: rest) st = .ok final) : final.errors ≠ [] :=
+  (Listener.duplicate_parameter_rejected_anywhere pe' sl sc ls cs pn pt st c hav hpn hpt hc hdup rest final h).2
+
+theorem duplicate_parameter_voids_transform (antlrErrors : List SynErr) (T : Tree) (pe' : Option Bool)
+    (sl sc : Nat) (ls) (cs : List Tree) (pn pt : Tree) (s : LState) (c : Condition)
+    (hr : Reaches none [T] { errors := antlrErrors } pe' (.rule "conditionParameter" sl sc ls cs) s)
+    (hav : avoidsL condBad cs = true)
+    (hpn : (Tree.rule "conditionParameter" sl sc ls cs).childRule? "parameterName" = some pn)
+    (hpt : (Tree.rule "conditionParameter" sl sc ls cs).childRule? "parameterType" = some pt)
+    (hc : s.currentCondition = some c) (hdup : AList.contains pn.text c.params = true) (m : Model) (x) :
+    transform antlrErrors T ≠ .ok m x :=
+  Listener.duplicate_parameter_voids_transform antlrErrors T pe' sl sc ls cs pn pt s c hr hav hpn hpt hc hdup m x
+
+/-! ### `extend` in a model that is not modular -/
+
+/-- a `typeDef` node (any children) with an EXTEND token, met while the file is not a module: every
+    successful walk logs the error at the position of the type name -/
+theorem extend_nonmodular_logged (pe : Option Bool) (sl sc : Nat) (ls) (cs : List Tree) (tn : Tree) (st st' : LState)
+    (htn : (Tree.rule "typeDef" sl sc ls cs).label? "typeName" = some tn)
+    (hext : ((Tree.rule "typeDef" sl sc ls cs).childTok? "EXTEND").isSome = true)
+    (hmod : st.isModular = false)
+    (h : walk pe (.rule "typeDef" sl sc ls cs) st = .ok st') :
+    ∃ l, st'.errors = st.errors ++
+      (⟨tn.startPos.1, tn.startPos.2, "extend can only be used in a modular model"⟩ :: l) :=
+  Listener.extend_nonmodular_logged pe sl sc ls cs tn st st' htn hext hmod h
+
+theorem extend_nonmodular_rejected_anywhere (pe' : Option Bool) (sl sc : Nat) (ls) (cs : List Tree) (tn : Tree)
+    (st : LState) (htn : (Tree.rule "typeDef" sl sc ls cs).label? "typeName" = some tn)
+    (hext : ((Tree.rule "typeDef" sl sc ls cs).childTok? "EXTEND").isSome = true)
+    (hmod : st.isModular = false) (rest : List Tree) (final : LState)
+    (h : walkL pe' (.rule "typeDef" sl sc ls cs :: rest) st = .ok final) : final.errors ≠ [] :=
+  (Listener.extend_nonmodular_rejected_anywhere pe' sl sc ls cs tn st htn hext hmod rest final h).2
+
+theorem extend_nonmodular_voids_transform (antlrErrors : List SynErr) (T : Tree) (pe' : Option Bool)
+    (sl sc : Nat) (ls) (cs : List Tree) (tn : Tree) (s : LState)
+    (hr : Reaches none [T] { errors := antlrErrors } pe' (.rule "typeDef" sl sc ls cs) s)
+    (htn : (Tree.rule "typeDef" sl sc ls cs).label? "typeName" = some tn)
+    (hext : ((Tree.rule "typeDef" sl sc ls cs).childTok? "EXTEND").isSome = true)
+    (hmod : s.isModular = false) (m : Model) (x) :
+    transform antlrErrors T ≠ .ok m x :=
+  Listener.extend_nonmodular_voids_transform antlrErrors T pe' sl sc ls cs tn s hr htn hext hmod m x
+
+/-! ### the same type extended twice in one file -/
+
+/-- callback level, for every context node and state: leaving an `extend type` node of a module whose
+    extension map already has the type under construction — if the callback returns (Go dereferences
+    the node's `typeName` field on this path), the field is there and the error is logged at it -/
+theorem extended_twice_logged_by_callback (ctx : Tree) (st st' : LState) (td : TypeDef) (exts : List (String × Nat))
+    (hext : (ctx.childTok? "EXTEND").isSome = true) (hmod : st.isModular = true)
+    (hexts : st.typeDefExtensions = some exts) (htd : st.currentTypeDef = some td) (hname : td.name ≠ "")
+    (hdup : AList.contains td.name exts = true) (h : exitTypeDef ctx st = .ok st') :
+    ∃ tn, ctx.label? "typeName" = some tn ∧
+      st'.errors = st.errors ++ [⟨tn.startPos.1, tn.startPos.2, s!"'{td.name}' is already extended in file."⟩] :=
+  exitTypeDef_extended_twice ctx st st' td exts hext hmod hexts htd hname hdup h
+
+/-- whole node, arbitrary children, in terms of the state the children leave behind -/
+theorem extended_twice_logged_after_children (pe : Option Bool) (sl sc : Nat) (ls) (cs : List Tree)
+    (st st1 st2 st' : LState) (td : TypeDef) (exts : List (String × Nat))
+    (hext : ((Tree.rule "typeDef" sl sc ls cs).childTok? "EXTEND").isSome = true)
+    (h1 : enterTypeDef (.rule "typeDef" sl sc ls cs) st = .ok st1)
+    (h2 : walkL (some true) cs st1 = .ok st2)
+    (hmod : st2.isModular = true) (hexts : st2.typeDefExtensions = some exts)
+    (htd : st2.currentTypeDef = some td) (hname : td.name ≠ "") (hdup : AList.contains td.name exts = true)
+    (h : walk pe (.rule "typeDef" sl sc ls cs) st = .ok st') :
+    ∃ tn l, (Tree.rule "typeDef" sl sc ls cs).label? "typeName" = some tn ∧
+      st'.errors = st.errors ++ l ++
+        [⟨tn.startPos.1, tn.startPos.2, s!"'{td.name}' is already extended in file."⟩] :=
+  Listener.extended_twice_logged_after_children pe sl sc ls cs st st1 st2 st' td exts hext h1 h2 hmod hexts htd
+    hname hdup h
+
+/-- whole node in terms of the state *before* it: an `extend type X` node — children of any shape
+    provided no `typeDef` / `moduleHeader` node is nested in them (only those touch the modular flag, the
+    extension map and the name of the type under construction, `keeps_type`) — met in a module whose
+    extension map already has `X`: every successful walk ends with the error, at the position of the
+    type name, as the last entry of the log -/
+theorem extended_twice_logged (pe : Option Bool) (sl sc : Nat) (ls) (cs : List Tree) (tn : Tree) (st st' : LState)
+    (exts : List (String × Nat))
+    (htn : (Tree.rule "typeDef" sl sc ls cs).label? "typeName" = some tn) (hne : tn.text ≠ "")
+    (hext : ((Tree.rule "typeDef" sl sc ls cs).childTok? "EXTEND").isSome = true)
+    (hmod : st.isModular = true) (hexts : st.typeDefExtensions = some exts)
+    (hdup : AList.contains tn.text exts = true) (hav : avoidsL typeBad cs = true)
+    (h : walk pe (.rule "typeDef" sl sc ls cs) st = .ok st') :
+    ∃ l, st'.errors = st.errors ++ l ++
+      [⟨tn.startPos.1, tn.startPos.2, s!"'{tn.text}' is already extended in file."⟩] :=
+  Listener.extended_twice_logged pe sl sc ls cs tn st st' exts htn hne hext hmod hexts hdup hav h
+
+/-- **two `extend type X` nodes in one file**: with anything but a module header between them (other
+    types, other extensions, conditions, error nodes) and anything at all after them, a successful walk
+    ends with a non-empty log — "'X' is already extended in file." at the second node's type name is in it.
+    (The first node puts `X` into the extension map, `extend_registers`; what follows keeps it there,
+    `preserves_extended`.) -/
+theorem same_type_extended_twice (pe : Option Bool)
+    (sl1 sc1 : Nat) (ls1) (cs1 : List Tree) (tn1 : Tree) (mid : List Tree)
+    (sl2 sc2 : Nat) (ls2) (cs2 : List Tree) (tn2 : Tree) (rest : List Tree)
+    (st final : LState) (exts : List (String × Nat))
+    (htn1 : (Tree.rule "typeDef" sl1 sc1 ls1 cs1).label? "typeName" = some tn1)
+    (htn2 : (Tree.rule "typeDef" sl2 sc2 ls2 cs2).label? "typeName" = some tn2)
+    (hsame : tn2.text = tn1.text) (hne : tn1.text ≠ "")
+    (hext1 : ((Tree.rule "typeDef" sl1 sc1 ls1 cs1).childTok? "EXTEND").isSome = true)
+    (hext2 : ((Tree.rule "typeDef" sl2 sc2 ls2 cs2).childTok? "EXTEND").isSome = true)
+    (hmod : st.isModular = true) (hexts : st.typeDefExtensions = some exts)
+    (hav1 : avoidsL typeBad cs1 = true) (hav2 : avoidsL typeBad cs2 = true)
+    (hmid : avoidsL isModuleHeader mid = true)
+    (h : walkL pe (.rule "typeDef" sl1 sc1 ls1 cs1 :: (mid ++ .rule "typeDef" sl2 sc2 ls2 cs2 :: rest)) st = .ok final) :
+    (⟨tn2.startPos.1, tn2.startPos.2, s!"'{tn2.text}' is already extended in file."⟩ : SynErr) ∈ final.errors ∧
+      final.errors ≠ [] :=
+  Listener.same_type_extended_twice pe sl1 sc1 ls1 cs1 tn1 mid sl2 sc2 ls2 cs2 tn2 rest st final exts htn1 htn2 hsame hne
+    hext1 hext2 hmod hexts hav1 hav2 hmid h
+
+theorem extended_twice_voids_transform (antlrErrors : List SynErr) (T : Tree) (pe' : Option Bool)
+    (sl sc : Nat) (ls) (cs : List Tree) (tn : Tree) (s : LState) (exts : List (String × Nat))
+    (hr : Reaches none [T] { errors := antlrErrors } pe' (.rule "typeDef" sl sc ls cs) s)
+    (htn : (Tree.rule "typeDef" sl sc ls cs).label? "typeName" = some tn) (hne : tn.text ≠ "")
+    (hext : ((Tree.rule "typeDef" sl sc ls cs).childTok? "EXTEND").isSome = true)
+    (hmod : s.isModular = true) (hexts : s.typeDefExtensions = some exts)
+    (hdup : AList.contains tn.text exts = true) (hav : avoidsL typeBad cs = true) (m : Model) (x) :
+    transform antlrErrors T ≠ .ok m x :=
+  Listener.extended_twice_voids_transform antlrErrors T pe' sl sc ls cs tn s exts hr htn hne hext hmod hexts hdup hav m x
+
+/-! ### non-vacuity: concrete nodes and states that meet the hypotheses; the walk succeeds and logs
+    exactly the one error -/
+
+def tkn (ty text : String) (l c : Nat) : Tree := .tok ty text l c false
+
+/-- `x: int` on line 5 -/
+def paramNode : Tree :=
+  .rule "conditionParameter" 5 13 [] [
+    .rule "parameterName" 5 13 [] [tkn "IDENTIFIER" "x" 5 13], tkn "COLON" ":" 5 14, tkn "WHITESPACE" " " 5 15,
+    .rule "parameterType" 5 16 [] [tkn "CONDITION_PARAM_TYPE" "int" 5 16]]
+
+/-- `condition c1(x: int) {x < 1}` on line 5 -/
+def condNode : Tree :=
+  .rule "condition" 4 30 [] [
+    tkn "NEWLINE" "\n" 4 30, tkn "CONDITION" "condition" 5 0, tkn "WHITESPACE" " " 5 9,
+    .rule "conditionName" 5 10 [] [tkn "IDENTIFIER" "c1" 5 10],
+    tkn "LPAREN" "(" 5 12, paramNode, tkn "RPAREN" ")" 5 19, tkn "WHITESPACE" " " 5 20, tkn "LBRACE" "{" 5 21,
+    .rule "conditionExpression" 5 22 [] [tkn "IDENTIFIER" "x" 5 22, tkn "WHITESPACE" " " 5 23, tkn "LESS" "<" 5 24,
+      tkn "WHITESPACE" " " 5 25, tkn "NUM_INT" "1" 5 26],
+    tkn "RBRACE" "}" 5 27]
+
+/-- a state in which a condition `c1` has been collected -/
+def stWithC1 : LState := { conds := [("c1", { name := "c1" })] }
+
+example : condNode.childRule? "conditionName" = some (.rule "conditionName" 5 10 [] [tkn "IDENTIFIER" "c1" 5 10]) := rfl
+example : AList.contains "c1" stWithC1.conds = true := by decide
+example : (match walk none condNode stWithC1 with | .ok s => s.errors | .error _ => []) =
+    [⟨4, 10, "condition 'c1' is already defined in the model"⟩] := by decide
+
+/-- a state inside condition `c1`, which has a parameter `x` already -/
+def stInC1 : LState := { currentCondition := some { name := "c1", params := [("x", { typeName := "string" })] } }
+
+example : inertL paramNode.children = true ∧ avoidsL condBad paramNode.children = true := by decide
+example : paramNode.childRule? "parameterName" = some (.rule "parameterName" 5 13 [] [tkn "IDENTIFIER" "x" 5 13]) := rfl
+example : paramNode.childRule? "parameterType" =
+    some (.rule "parameterType" 5 16 [] [tkn "CONDITION_PARAM_TYPE" "int" 5 16]) := rfl
+example : (match walk none paramNode stInC1 with | .ok s => s.errors | .error _ => []) =
+    [⟨4, 13, "parameter 'x' is already defined in the condition 'c1'"⟩] := by decide
+
+def typeNameNode (l : Nat) : Tree := .rule "extended_identifier" l 12 [] [tkn "IDENTIFIER" "doc" l 12]
+
+/-- `extend type doc` on line `l` (the node starts with the NEWLINE that ends the line before) -/
+def extendNode (l : Nat) : Tree :=
+  .rule "typeDef" (l - 1) 20 [("typeName", 5)] [
+    tkn "NEWLINE" "\n" (l - 1) 20, tkn "EXTEND" "extend" l 0, tkn "WHITESPACE" " " l 6, tkn "TYPE" "type" l 7,
+    tkn "WHITESPACE" " " l 11, typeNameNode l]
+
+/-- a model (not a module) with `extend type doc` on line 4 -/
+def modelFile : Tree :=
+  .rule "main" 1 0 [] [
+    .rule "modelHeader" 1 0 [("schemaVersion", 4)] [tkn "MODEL" "model" 1 0, tkn "NEWLINE" "\n" 1 5,
+      tkn "SCHEMA" "schema" 2 2, tkn "WHITESPACE" " " 2 8, tkn "SCHEMA_VERSION" "1.1" 2 9],
+    .rule "typeDefs" 2 12 [] [extendNode 4],
+    .rule "conditions" 4 15 [] [],
+    tkn "EOF" "<EOF>" 4 15]
+
+/-- a module with `extend type doc` on lines 3 and 4 -/
+def moduleFile : Tree :=
+  .rule "main" 1 0 [] [
+    .rule "moduleHeader" 1 0 [("moduleName", 2)] [tkn "MODULE" "module" 1 0, tkn "WHITESPACE" " " 1 6,
+      .rule "identifier" 1 7 [] [tkn "IDENTIFIER" "m" 1 7]],
+    .rule "typeDefs" 2 0 [] [extendNode 3, extendNode 4],
+    .rule "conditions" 4 15 [] [],
+    tkn "EOF" "<EOF>" 4 15]
+
+example : (extendNode 4).label? "typeName" = some (typeNameNode 4) := rfl
+example : ((extendNode 4).childTok? "EXTEND").isSome = true ∧ (typeNameNode 4).text ≠ "" := by decide
+example : (match walk none (extendNode 4) {} with | .ok s => s.errors | .error _ => []) =
+    [⟨3, 12, "extend can only be used in a modular model"⟩] := by decide
+example : (match transform [] modelFile with | .errors es => es | _ => []) =
+    [⟨3, 12, "extend can only be used in a modular model"⟩] := by decide +kernel
+
+/-- a module state in which `doc` has been extended -/
+def stExtended : LState := { isModular := true, typeDefExtensions := some [("doc", 0)] }
+
+example : avoidsL typeBad (extendNode 4).children = true := by decide
+example : (match walk none (extendNode 4) stExtended with | .ok s => s.errors | .error _ => []) =
+    [⟨3, 12, "'doc' is already extended in file."⟩] := by decide
+example : (match transform [] moduleFile with | .errors es => es | _ => []) =
+    [⟨3, 12, "'doc' is already extended in file."⟩] := by decide +kernel
+
+/-- `Reaches` is inhabited where it should be: the walk of the module file arrives at the second
+    `extend type doc` — two levels down, second sibling — in a state in which `doc` is in the extension map
+    (the hypotheses of `extended_twice_voids_transform`) -/
+example : ∃ s, Reaches none [moduleFile] {} none (extendNode 4) s ∧ Extended "doc" s := by
+  refine ⟨?s, ?h1, ?h2⟩
+  case h1 =>
+    refine Reaches.down _ _ _ _ _ _ _ _ _ _ _ _ rfl ?_
+    refine Reaches.skip _ _ _ _ _ _ _ _ rfl ?_
+    refine Reaches.down _ _ _ _ _ _ _ _ _ _ _ _ rfl ?_
+    refine Reaches.skip _ _ _ _ _ _ _ _ rfl ?_
+    exact Reaches.here _ _ _ _
+  case h2 => exact ⟨rfl, _, rfl, by decide⟩
 
 end FgaVerif.Props.C09
